@@ -367,7 +367,24 @@ def parents_descending(prog: Program, call: ast.Call) -> Optional[bool]:
     return rev
 
 
-def g6_lookup_by_short_name(prog: Program, run: Run, rule: str, patterns: Sequence[str]) -> int:
+def _is_named_list(env, e: ast.AST) -> bool:
+    from ..types import annotation_of
+    try:
+        a = annotation_of(env, e)
+    except Exception:  # noqa: BLE001
+        return False
+    if a is None:
+        return False
+    while isinstance(a, ast.Subscript) and ast.unparse(a.value).split(".")[-1] == "Optional":
+        a = a.slice
+    head = a.value if isinstance(a, ast.Subscript) else a
+    if isinstance(head, ast.Constant) and isinstance(head.value, str):
+        return head.value.lstrip("'\"").startswith(("NamedItemList", "ItemAttributeList"))
+    return ast.unparse(head).split(".")[-1] in ("NamedItemList", "ItemAttributeList")
+
+
+def g6_lookup_by_short_name(prog: Program, run: Run, rule: str, patterns: Sequence[str],
+                            strict_get: bool = False) -> int:
     """A NamedItemList is keyed by the *mangled* attribute name (`_`-prefixed for keywords and
     leading digits, `_2` for duplicates, names of list methods are shadowed): looking an item up
     with somebody's raw short_name (`lst.get(x.short_name)`, `lst[x.short_name]`,
@@ -393,6 +410,20 @@ def g6_lookup_by_short_name(prog: Program, run: Run, rule: str, patterns: Sequen
                 continue
             n += 1
             if "short_name" not in ast.unparse(arg):
+                # `.get(<runtime string>)` on a NamedItemList: in library code every such string
+                # is somebody's short name (a case / service / parameter named by the caller)
+                if not (strict_get and kind == ".get()" and not isinstance(arg, ast.Constant)):
+                    continue
+                env = env or TypeEnv(prog, f)
+                if not _is_named_list(env, recv):
+                    continue
+                run.violation(rule, f"{f.module.rel}:{f.qual}", "lookup-by-raw-short-name",
+                              f"`{' '.join(ast.unparse(x).split())[:90]}` looks an item of a "
+                              "NamedItemList up by a name given by the caller; the list is keyed "
+                              "by the mangled name, so items whose short name is a Python "
+                              "keyword, starts with a digit, equals a list method or is a "
+                              "duplicate are not found (equality of short names needs a scan)",
+                              f"{f.module.rel}:{x.lineno}")
                 continue
             env = env or TypeEnv(prog, f)
             t = env.type_of(recv)
